@@ -66,10 +66,11 @@ class State:
         self.mem[c] = v
         return c
 
-    def add(self, c):
-        if c is True:
-            return
-        self.pc.append(c)
+    def add(self, *cs):
+        for c in cs:
+            if c is True:
+                continue
+            self.pc.append(c)
 
     def emit(self, ev):
         self.log = self.log + (ev,)
@@ -192,6 +193,9 @@ class Interp:
         self.closure_index = {}
         self.var_bounds = {}
         self.bcache = {}
+        self.contracts_on = set()
+        self.auto_merge = set()      # function name suffixes whose paths are merged into one summary (autosum.py)
+        self.auto_cache = {}
         self.max_blocks = 400000
         self.loop_bound = 64
         from . import summaries
@@ -728,6 +732,25 @@ class Interp:
         st.ghost['divs'] = st.ghost.get('divs', ()) + ((x, y, q, r),)
         return q, r
 
+    def gdiv(self, st, x, y):
+        """guarded floor division that never constrains the path: q = floor(x/y) when y > 0, else 0 (memoised)."""
+        if isinstance(y, int):
+            if y > 0:
+                return self.idiv(st, x, y)[0]
+            return 0
+        xs_ = z3.simplify(x) if is_sym(x) else x
+        ys_ = z3.simplify(y) if is_sym(y) else y
+        for (x0, y0, q0, r0) in st.ghost.get('divs', ()):
+            if same_term(x0, xs_) and same_term(y0, ys_):
+                return q0
+        q = self.fresh('gq')
+        r = self.fresh('gr')
+        st.add(z3.And(z3.Implies(ys_ > 0, z3.And(xs_ == q * ys_ + r, r >= 0, r < ys_)), z3.Implies(ys_ <= 0, q == 0), q >= 0))
+        xl, xh = self.bounds(xs_)
+        self.var_bounds[q.decl().name()] = (0, xh)
+        st.ghost['divs'] = st.ghost.get('divs', ()) + ((xs_, ys_, q, r),)
+        return q
+
     def rvalue(self, st, fn, base, rv, dest_ty=None):
         k = rv[0]
         if k == 'use':
@@ -848,6 +871,12 @@ class Interp:
         nm = strip_generics(name)
         segs = nm.split('::')
         last = segs[-1]
+        if last == 'U256' and len(ops) == 1 and isinstance(ops[0], Agg) and ops[0].ty == '[]' and len(ops[0].fields) == 4:
+            # bigint::U256([u64; 4]) little-endian limbs -> one mathematical integer
+            v = 0
+            for i, limb in enumerate(ops[0].fields):
+                v = v + limb * (2 ** (64 * i))
+            return Agg('U256', (v,))
         # try enum variant through the destination type first
         td = self.types.lookup(dest_ty, fn.crate) if dest_ty else None
         if td is not None and td.kind == 'enum':
@@ -1077,6 +1106,17 @@ class Interp:
         target = self.resolve_fn(st, fn, callee, args)
         if target is None:
             raise Gap('no summary and no MIR body for callee: %s  (in %s::%s)' % (callee, fn.crate, fn.name))
+        if self.auto_merge and self.merge_wanted(target):
+            from . import autosum
+            vals = [self.val(st, a) if isinstance(a, Ref) else a for a in args]
+            key = (target.crate, target.name, repr([type(v).__name__ if not isinstance(v, Agg) else v.ty for v in vals]))
+            S = self.auto_cache.get(key)
+            if S is None:
+                S = autosum.build(self, target, vals)
+                self.auto_cache[key] = S
+                self.stats.fns.add('%s::%s [merged: %d paths, %d panic paths]' % (target.crate, target.name, len(S.ok), len(S.panic)))
+            yield from autosum.instantiate(self, st, S, vals)
+            return
         yield from self.call_fn(st, target, args)
 
     def argty(self, st, v):
@@ -1155,7 +1195,7 @@ class Interp:
                     return hit[0]
                 if len(hit) > 1:
                     raise Gap('ambiguous callee %s: %s' % (callee, hit))
-                return None
+                cands = []          # not a free function of that crate: maybe an inherent/impl method (below)
             hit = [x for x in cands if x.crate == fn.crate and (x.name.endswith('::' + c) or c.endswith('::' + x.name))]
             if len(hit) == 1:
                 return hit[0]
@@ -1225,6 +1265,19 @@ class Interp:
                 return own[0][1]
             raise Gap('ambiguous impl callee %s: %s' % (callee, [b[1] for b in same]))
         return best[0][1]
+
+    def merge_wanted(self, target):
+        if target.name in getattr(self, 'no_merge_fn', ()):
+            return False
+        if any(pt.lstrip().startswith('&mut') for _, pt in target.params):
+            return False
+        for x in self.auto_merge:
+            if x.endswith(':*'):
+                if target.crate == x[:-2] and target.params and '{closure' not in target.name:
+                    return True
+            elif target.name.endswith(x):
+                return True
+        return False
 
     # helper used by summaries to call closures / fn pointers
     def call_callable(self, st, f, args):
